@@ -51,36 +51,22 @@ type gwVS struct {
 	gateways []string
 }
 
-type gwState struct {
+type gwDef struct {
 	name, ns string
 	selector map[string]string
 	servers  []gwServer
-	vss      []gwVS
-	svcs     []meshSvc
-	vhosts   []*route.VirtualHost
-	route    string
-	built    bool
-	cg       *core.ConfigGenTest
-	fl       *failer
 }
 
-func (g *gwState) drop() {
-	if g.fl != nil {
-		g.fl.done()
-	}
-	g.cg, g.fl, g.built = nil, nil, false
-}
+func (g *gwDef) fullName() string { return g.ns + "/" + g.name }
 
-func (g *gwState) fullName() string { return g.ns + "/" + g.name }
-
-func (g *gwState) routeNameOf(sv gwServer) string {
+func (g *gwDef) routeNameOf(sv gwServer) string {
 	if sv.https {
 		return "https." + strconv.Itoa(sv.port) + "." + sv.portName + "." + g.name + "." + g.ns
 	}
 	return "http." + strconv.Itoa(sv.port)
 }
 
-func (g *gwState) config() config.Config {
+func (g *gwDef) config(idx int) config.Config {
 	gw := &networking.Gateway{Selector: g.selector}
 	for _, sv := range g.servers {
 		s := &networking.Server{Port: &networking.Port{Number: uint32(sv.port), Protocol: "HTTP", Name: sv.portName}, Hosts: sv.hosts}
@@ -92,7 +78,33 @@ func (g *gwState) config() config.Config {
 		}
 		gw.Servers = append(gw.Servers, s)
 	}
-	return config.Config{Meta: config.Meta{GroupVersionKind: gvk.Gateway, Name: g.name, Namespace: g.ns, CreationTimestamp: time.Unix(900, 0)}, Spec: gw}
+	return config.Config{Meta: config.Meta{GroupVersionKind: gvk.Gateway, Name: g.name, Namespace: g.ns,
+		CreationTimestamp: time.Unix(int64(900+idx), 0)}, Spec: gw}
+}
+
+type gwState struct {
+	gws   []*gwDef // creation order; servers are added to the last one
+	vss   []gwVS
+	svcs  []meshSvc
+	rc    *route.RouteConfiguration
+	route string
+	built bool
+	cg    *core.ConfigGenTest
+	fl    *failer
+}
+
+func (g *gwState) drop() {
+	if g.fl != nil {
+		g.fl.done()
+	}
+	g.cg, g.fl, g.built = nil, nil, false
+}
+
+func (g *gwState) last() *gwDef {
+	if len(g.gws) == 0 {
+		return nil
+	}
+	return g.gws[len(g.gws)-1]
 }
 
 func (s *state) gwStep(f []string) (string, bool) {
@@ -107,13 +119,15 @@ func (s *state) gwStep(f []string) (string, bool) {
 		s.services[host.Name(ms.host)] = ms.real()
 		g.drop()
 		return "ok", true
-	case "gateway":
-		g.name, g.ns, g.selector = wire.Dec(f[1]), wire.Dec(f[2]), pairsMap(decPairs(f[3]))
-		g.servers = nil
+	case "gateway": // a further Gateway resource selecting the same router
+		g.gws = append(g.gws, &gwDef{name: wire.Dec(f[1]), ns: wire.Dec(f[2]), selector: pairsMap(decPairs(f[3]))})
 		g.drop()
 		return "ok", true
 	case "server":
-		g.servers = append(g.servers, gwServer{port: atoi(f[1]), https: f[2] == "HTTPS", portName: wire.Dec(f[3]), hosts: wire.DecList(f[4]),
+		if g.last() == nil {
+			return "ok", true
+		}
+		g.last().servers = append(g.last().servers, gwServer{port: atoi(f[1]), https: f[2] == "HTTPS", portName: wire.Dec(f[3]), hosts: wire.DecList(f[4]),
 			tls: f[5] == "1" || f[2] == "HTTPS", redirect: f[6] == "1" && f[2] != "HTTPS"})
 		g.drop()
 		return "ok", true
@@ -140,7 +154,10 @@ func (s *state) gwStep(f []string) (string, bool) {
 			for i := range g.svcs {
 				svcs = append(svcs, g.svcs[i].real())
 			}
-			cfgs := []config.Config{g.config()}
+			var cfgs []config.Config
+			for i, gd := range g.gws {
+				cfgs = append(cfgs, gd.config(i))
+			}
 			for _, v := range g.vss {
 				cfgs = append(cfgs, v.cfg)
 			}
@@ -150,20 +167,19 @@ func (s *state) gwStep(f []string) (string, bool) {
 			Metadata: &model.NodeMetadata{Namespace: ns, Labels: labels}})
 		req := &model.PushRequest{Push: g.cg.PushContext(), Start: time.Now()}
 		resources, _ := g.cg.ConfigGen.BuildHTTPRoutes(proxy, req, []string{rn})
-		g.vhosts = nil
+		g.rc = nil
 		if len(resources) == 1 {
 			rc := &route.RouteConfiguration{}
 			if err := resources[0].Resource.UnmarshalTo(rc); err == nil {
-				g.vhosts = rc.VirtualHosts
+				g.rc = rc
 			}
 		}
 		g.route, g.built = rn, true
 		s.node = &model.Proxy{Type: model.Router, Labels: labels, Metadata: &model.NodeMetadata{Namespace: ns}}
-		s.gwNames = sets.New(g.fullName())
-		return "ok", true
+		return showVHostTable(g.rc), true
 	case "gdump": // debugging aid (not part of any stream): the real virtual hosts
 		var out []string
-		for _, vh := range g.vhosts {
+		for _, vh := range g.rc.GetVirtualHosts() {
 			out = append(out, fmt.Sprintf("%s%v#%d", vh.Name, vh.Domains, len(vh.Routes)))
 		}
 		return strings.Join(out, " "), true
@@ -172,7 +188,7 @@ func (s *state) gwStep(f []string) (string, bool) {
 			return "no-grds", true
 		}
 		q := parseReq(f)
-		vh := selectVHostRef(g.vhosts, q.authority)
+		vh := selectVHostConf(g.rc, q.authority)
 		if vh == nil {
 			return "404", true
 		}
@@ -257,21 +273,22 @@ type contributor struct {
 	cfg   config.Config
 	port  int
 	isTLS bool
+	gw    string
 }
 
 // mergedSpec: several VirtualServices on one gateway host - the first specific rule that fires (each
 // VirtualService's rules before its own first catch-all), VirtualServices in order; else the first catch-all.
+// Every contributor is read in the context of the server it was bound at.
 func (s *state) mergedSpec(cs []contributor, q request) string {
 	type fb struct {
 		c contributor
 		h *networking.HTTPRoute
 	}
 	var fallback *fb
-	saveVS, saveCfg, savePort := s.vs, s.cfg, s.port
-	defer func() { s.vs, s.cfg, s.port = saveVS, saveCfg, savePort }()
+	saveVS, saveCfg, savePort, saveGw, saveTLS := s.vs, s.cfg, s.port, s.gwNames, s.isTLS
+	defer func() { s.vs, s.cfg, s.port, s.gwNames, s.isTLS = saveVS, saveCfg, savePort, saveGw, saveTLS }()
 	for _, c := range cs {
-		s.vs, s.cfg, s.port = c.vs, c.cfg, c.port
-		s.isTLS = c.isTLS
+		s.vs, s.cfg, s.port, s.isTLS, s.gwNames = c.vs, c.cfg, c.port, c.isTLS, sets.New(c.gw)
 	rules:
 		for _, h := range c.vs.Http {
 			if len(h.Match) == 0 {
@@ -297,108 +314,99 @@ func (s *state) mergedSpec(cs []contributor, q request) string {
 		}
 	}
 	if fallback != nil {
-		s.vs, s.cfg, s.port, s.isTLS = fallback.c.vs, fallback.c.cfg, fallback.c.port, fallback.c.isTLS
+		c := fallback.c
+		s.vs, s.cfg, s.port, s.isTLS, s.gwNames = c.vs, c.cfg, c.port, c.isTLS, sets.New(c.gw)
 		return s.specAction(fallback.h)
 	}
 	return "404"
 }
 
-// gwSpec: what should happen to a request arriving at the gateway on this route.
-func (s *state) gwSpec(q request) string {
+type specServer struct {
+	gw *gwDef
+	sv gwServer
+}
+
+// specServers: the servers of the current route, gateways in creation order, hosts as documented:
+// `./h` = the gateway's namespace, `*/h` = any namespace, `*/*` = everything.
+func (s *state) specServers() []specServer {
 	g := &s.gw
-	var servers []gwServer
-	for _, sv := range g.servers {
-		if g.routeNameOf(sv) == g.route {
-			// server hosts as documented: `./h` = the gateway's namespace, `*/h` = any namespace, `*/*` = everything
+	var servers []specServer
+	for _, gd := range g.gws {
+		for _, sv := range gd.servers {
+			if gd.routeNameOf(sv) != g.route {
+				continue
+			}
 			var hs []string
+			all := false
 			for _, h := range sv.hosts {
 				switch {
 				case h == "*/*":
-					hs = []string{"*"}
+					all = true
 				case strings.HasPrefix(h, "./"):
-					hs = append(hs, g.ns+"/"+h[2:])
+					hs = append(hs, gd.ns+"/"+h[2:])
 				case strings.HasPrefix(h, "*/"):
 					hs = append(hs, h[2:])
 				default:
 					hs = append(hs, h)
 				}
-				if len(hs) == 1 && hs[0] == "*" && h == "*/*" {
-					break
-				}
 			}
-			for _, h := range sv.hosts {
-				if h == "*/*" {
-					hs = []string{"*"}
-				}
+			if all {
+				hs = []string{"*"}
 			}
 			sv.hosts = hs
-			servers = append(servers, sv)
+			servers = append(servers, specServer{gd, sv})
 		}
 	}
-	var bound []gwVS
-	for _, v := range g.vss {
-		for _, n := range v.gateways {
-			if n == g.fullName() {
-				bound = append(bound, v)
-				break
-			}
-		}
-	}
-	first := func(v gwVS) (gwServer, bool) {
-		vs := v.cfg.Spec.(*networking.VirtualService)
-		for _, sv := range servers {
-			if len(intersect(sv.hosts, v.cfg.Namespace, vs.Hosts)) > 0 {
-				return sv, true
-			}
-		}
-		return gwServer{}, false
-	}
-	applies := func(v gwVS) (contributor, bool) {
-		sv, ok := first(v)
-		if !ok {
-			return contributor{}, false
-		}
-		vs := v.cfg.Spec.(*networking.VirtualService)
-		savePort := s.port
-		s.port = sv.port
-		ok = s.vsApplies(vs)
-		s.port = savePort
-		return contributor{vs: vs, cfg: v.cfg, port: sv.port, isTLS: sv.tls}, ok
-	}
-	// domains, their contributors, and whether plain-text requests are redirected
-	type dom struct {
-		name string
-		cs   []contributor
-		tls  bool
-	}
-	var doms []*dom
-	get := func(n string) *dom {
+	return servers
+}
+
+type specDomain struct {
+	name string
+	cs   []contributor
+	tls  bool
+}
+
+// gwDomainsSpec: the domains of the route, their contributors (each VirtualService in the context of the server
+// it is bound at) and whether plain-text requests are redirected.
+func (s *state) gwDomainsSpec() []*specDomain {
+	var doms []*specDomain
+	get := func(n string) *specDomain {
 		for _, d := range doms {
 			if d.name == n {
 				return d
 			}
 		}
-		d := &dom{name: n}
+		d := &specDomain{name: n}
 		doms = append(doms, d)
 		return d
 	}
-	for _, sv := range servers {
-		for _, v := range bound {
-			vs := v.cfg.Spec.(*networking.VirtualService)
-			c, ok := applies(v)
-			if !ok {
+	saveVS, saveCfg, savePort, saveGw, saveTLS := s.vs, s.cfg, s.port, s.gwNames, s.isTLS
+	defer func() { s.vs, s.cfg, s.port, s.gwNames, s.isTLS = saveVS, saveCfg, savePort, saveGw, saveTLS }()
+	for _, ss := range s.specServers() {
+		for _, v := range s.gw.vss {
+			bound := false
+			for _, n := range v.gateways {
+				bound = bound || n == ss.gw.fullName()
+			}
+			if !bound {
 				continue
 			}
-			for _, h := range intersect(sv.hosts, v.cfg.Namespace, vs.Hosts) {
+			vs := v.cfg.Spec.(*networking.VirtualService)
+			s.port, s.gwNames = ss.sv.port, sets.New(ss.gw.fullName())
+			if !s.vsApplies(vs) {
+				continue
+			}
+			c := contributor{vs: vs, cfg: v.cfg, port: ss.sv.port, isTLS: ss.sv.tls, gw: ss.gw.fullName()}
+			for _, h := range intersect(ss.sv.hosts, v.cfg.Namespace, vs.Hosts) {
 				d := get(strings.ToLower(h))
 				d.cs = append(d.cs, c)
-				if sv.tls && sv.redirect {
+				if ss.sv.tls && ss.sv.redirect {
 					d.tls = true
 				}
 			}
 		}
-		if sv.tls && sv.redirect {
-			for _, h := range sv.hosts {
+		if ss.sv.tls && ss.sv.redirect {
+			for _, h := range ss.sv.hosts {
 				// the host a client addresses: the server host without its namespace qualifier
 				if _, name, found := strings.Cut(h, "/"); found {
 					h = name
@@ -407,25 +415,48 @@ func (s *state) gwSpec(q request) string {
 			}
 		}
 	}
-	// most specific domain for the authority
+	return doms
+}
+
+// gwSpec: what should happen to a request arriving at the gateway on this route.
+func (s *state) gwSpec(q request) string {
+	doms := s.gwDomainsSpec()
 	var vhs []*route.VirtualHost
 	for _, d := range doms {
 		vhs = append(vhs, &route.VirtualHost{Name: d.name, Domains: []string{d.name}})
 	}
-	vh := selectVHostRef(vhs, q.authority)
+	vh := selectVHostRef(vhs, stripPort(q.authority))
 	if vh == nil {
 		return "404"
 	}
-	d := get(vh.Name)
-	if d.tls && q.scheme == "http" {
-		return "tls-redirect"
+	for _, d := range doms {
+		if d.name == vh.Name {
+			if d.tls && q.scheme == "http" {
+				return "tls-redirect"
+			}
+			return s.mergedSpec(d.cs, q)
+		}
 	}
-	return s.mergedSpec(d.cs, q)
+	return "404"
 }
 
 // ---------------------------------------------------------------- generator
 
 var gwHostPool = []string{"api.example.com", "*.example.com", "www.example.com", "*", "*.com", "shop.example.org", "*.example.org", "API.Example.com"}
+
+// concreteHost: an authority a client could send for a (possibly wildcard) domain.
+func concreteHost(r *wire.Rng, d string) string {
+	if _, name, found := strings.Cut(d, "/"); found {
+		d = name
+	}
+	switch {
+	case d == "*":
+		return wire.Pick(r, []string{"anything.example.net", "api.example.com", "foo.com"})
+	case strings.HasPrefix(d, "*."):
+		return wire.Pick(r, []string{"x", "a.b", "www", "api"}) + d[1:]
+	}
+	return d
+}
 
 func genGw(seed uint64, n int, out string) {
 	root := wire.NewRng(seed*1000003 + 55)
@@ -437,7 +468,7 @@ func genGw(seed uint64, n int, out string) {
 		s := newState()
 		o.Line("case", strconv.Itoa(i), "gw")
 		nss := []string{"istio-system", "default", "other"}
-		gwNs := wire.Pick(r, nss[:2])
+		proxyNs := wire.Pick(r, nss[:2])
 		for _, ms := range []meshSvc{{host: "reviews.default.svc.cluster.local", ns: "default", ports: []int{9080}},
 			{host: "ratings.default.svc.cluster.local", ns: "default", ports: []int{8080, 9080}},
 			{host: "api.example.com", ns: "other", ports: []int{443}}} {
@@ -448,72 +479,104 @@ func genGw(seed uint64, n int, out string) {
 			}
 		}
 		sel := []kv{{"istio", "ingressgateway"}}
-		f := []string{"gateway", "gw", wire.Enc(gwNs), encPairs(sel)}
-		s.gwStep(f)
-		o.Line(f...)
-		// servers: hosts never repeated literally on one port
+		// one or two Gateway resources select the same router; plain-text servers of one port share a route name
 		type srv struct {
 			port  int
 			proto string
 			name  string
 		}
-		cands := []srv{{80, "HTTP", "http"}, {80, "HTTP", "http-b"}, {8080, "HTTP", "http-alt"}, {443, "HTTPS", "https"}}
 		used := map[int]map[string]bool{}
 		var routeNames []string
-		for k, c := range cands {
-			if k > 0 && !r.Chance(1, 2) {
-				continue
+		var allHosts []string
+		ngw := 1 + r.Intn(2)
+		for gi := 0; gi < ngw; gi++ {
+			gname := []string{"gw", "gw-b"}[gi]
+			gns := proxyNs
+			if gi == 1 && r.Chance(1, 2) {
+				gns = "other"
 			}
-			if used[c.port] == nil {
-				used[c.port] = map[string]bool{}
-			}
-			var hosts []string
-			for _, h := range wire.Subset(r, gwHostPool, 1, 3) {
-				if used[c.port][strings.ToLower(h)] {
-					continue
-				}
-				used[c.port][strings.ToLower(h)] = true
-				switch r.Intn(5) {
-				case 0:
-					h = wire.Pick(r, nss) + "/" + h
-				case 1:
-					h = "*/" + h
-				}
-				hosts = append(hosts, h)
-			}
-			if len(hosts) == 0 {
-				continue
-			}
-			tls, redirect := "0", "0"
-			if c.proto == "HTTP" && r.Chance(1, 6) {
-				tls = "1"
-				redirect = wire.B(r.Chance(2, 3))
-			}
-			f := []string{"server", strconv.Itoa(c.port), c.proto, c.name, wire.EncList(hosts), tls, redirect}
+			f := []string{"gateway", gname, wire.Enc(gns), encPairs(sel)}
 			s.gwStep(f)
 			o.Line(f...)
-			rn := s.gw.routeNameOf(s.gw.servers[len(s.gw.servers)-1])
-			dup := false
-			for _, x := range routeNames {
-				dup = dup || x == rn
-			}
-			if !dup {
-				routeNames = append(routeNames, rn)
+			cands := []srv{{80, "HTTP", "http"}, {80, "HTTP", "http-b"}, {8080, "HTTP", "http-alt"}, {443, "HTTPS", "https"}}
+			for k, c := range cands {
+				if k > 0 && !r.Chance(1, 2) {
+					continue
+				}
+				if used[c.port] == nil {
+					used[c.port] = map[string]bool{}
+				}
+				var hosts []string
+				for _, h := range wire.Subset(r, gwHostPool, 1, 3) {
+					if used[c.port][strings.ToLower(h)] {
+						continue // a host never repeats on one port (MergeGateways drops servers with duplicate TLS hosts)
+					}
+					used[c.port][strings.ToLower(h)] = true
+					allHosts = append(allHosts, h)
+					switch r.Intn(6) {
+					case 0:
+						h = wire.Pick(r, nss) + "/" + h
+					case 1:
+						h = "*/" + h
+					case 2:
+						h = "./" + h
+					}
+					hosts = append(hosts, h)
+				}
+				if len(hosts) == 0 {
+					continue
+				}
+				tls, redirect := "0", "0"
+				if c.proto == "HTTP" && r.Chance(1, 6) {
+					tls = "1"
+					redirect = wire.B(r.Chance(2, 3))
+				}
+				f := []string{"server", strconv.Itoa(c.port), c.proto, c.name + strconv.Itoa(gi), wire.EncList(hosts), tls, redirect}
+				s.gwStep(f)
+				o.Line(f...)
+				gd := s.gw.last()
+				rn := gd.routeNameOf(gd.servers[len(gd.servers)-1])
+				dup := false
+				for _, x := range routeNames {
+					dup = dup || x == rn
+				}
+				if !dup {
+					routeNames = append(routeNames, rn)
+				}
 			}
 		}
-		// VirtualServices
+		var gwNames []string
+		for _, gd := range s.gw.gws {
+			gwNames = append(gwNames, gd.fullName())
+		}
+		// VirtualServices: bound to one gateway, to both, to a gateway that does not exist, or also to the mesh
 		nvs := 1 + r.Intn(4)
 		merged := &networking.VirtualService{}
+		type vsHosts struct {
+			vs    *networking.VirtualService
+			hosts []string
+		}
+		var perVS []vsHosts
 		for k := 0; k < nvs; k++ {
-			gws := []string{s.gw.fullName()}
-			switch r.Intn(6) {
+			gws := []string{wire.Pick(r, gwNames)}
+			switch r.Intn(10) {
 			case 0:
 				gws = []string{"other/gw2"}
 			case 1:
-				gws = []string{"mesh", s.gw.fullName()}
+				gws = []string{"mesh", gwNames[0]}
+			case 2, 3, 4, 5:
+				gws = append([]string(nil), gwNames...)
 			}
 			for tries := 0; tries < 20; tries++ {
-				hosts := wire.Subset(r, gwHostPool, 1, 3)
+				hosts := wire.Subset(r, gwHostPool, 1, 4)
+				// mostly hosts some server of the case exposes (or a concrete host below a wildcard one)
+				for len(hosts) < 2 && len(allHosts) > 0 && r.Chance(4, 5) {
+					h := wire.Pick(r, allHosts)
+					if r.Chance(1, 3) {
+						h = concreteHost(r, h)
+					}
+					hosts = append(hosts, h)
+				}
 				if len(hosts) == 0 {
 					hosts = []string{wire.Pick(r, gwHostPool)}
 				}
@@ -537,8 +600,13 @@ func genGw(seed uint64, n int, out string) {
 				for j := 0; j < nr; j++ {
 					h := genRule(r, "requests", j, false, false)
 					for _, m := range h.Match {
-						if len(m.Gateways) > 0 {
-							m.Gateways = wire.Subset(r, []string{s.gw.fullName(), "other/gw2", "mesh"}, 1, 2)
+						// rules restricted to one of the bound gateways (match.gateways), to another gateway, or to the mesh
+						m.Gateways = nil
+						if r.Chance(1, 3) {
+							m.Gateways = wire.Subset(r, append([]string{"other/gw2", "mesh"}, gwNames...), 1, 2)
+							if len(m.Gateways) == 0 {
+								m.Gateways = []string{wire.Pick(r, gwNames)}
+							}
 						}
 						m.SourceLabels = nil
 						if r.Chance(1, 8) {
@@ -594,16 +662,33 @@ func genGw(seed uint64, n int, out string) {
 				s.gwStep(gf)
 				o.Line(gf...)
 				merged.Http = append(merged.Http, s.vs.Http...)
+				allHosts = append(allHosts, hs...)
+				perVS = append(perVS, vsHosts{vs: s.vs, hosts: hs})
 				break
 			}
 		}
 		for _, rn := range routeNames {
-			o.Line("grds", wire.Enc(gwNs), encPairs(sel), wire.Enc(rn))
+			o.Line("grds", wire.Enc(proxyNs), encPairs(sel), wire.Enc(rn))
 			nreq := 5 + r.Intn(5)
 			for k := 0; k < nreq; k++ {
 				q := synthRequests(r, merged, 1)[0]
-				q.authority = wire.Pick(r, []string{"api.example.com", "www.example.com", "x.example.com", "example.com", "shop.example.org", "a.b.example.org",
-					"foo.com", "API.example.com", "unknown.net", "default/api.example.com"})
+				// mostly: a request aimed at one VirtualService, addressed to one of ITS hosts; else any covered host
+				if r.Chance(3, 5) && len(perVS) > 0 {
+					v := wire.Pick(r, perVS)
+					q = synthRequests(r, v.vs, 1)[0]
+					q.authority = concreteHost(r, wire.Pick(r, v.hosts))
+				} else if r.Chance(1, 2) && len(allHosts) > 0 {
+					q.authority = concreteHost(r, wire.Pick(r, allHosts))
+				} else {
+					q.authority = wire.Pick(r, []string{"api.example.com", "x.example.com", "example.com", "a.b.example.org", "foo.com", "unknown.net",
+						"default/api.example.com"})
+				}
+				switch r.Intn(8) {
+				case 0:
+					q.authority = flipCase(r, q.authority)
+				case 1:
+					q.authority += ":" + wire.Pick(r, []string{"80", "8080", "443", "1234"})
+				}
 				if strings.HasPrefix(rn, "https") || r.Chance(1, 6) {
 					q.scheme = wire.Pick(r, []string{"https", "https", "http"})
 				}
